@@ -25,4 +25,5 @@ def check(ctx):
     c = collector.Collector(ctx, facts)
     if c.need("R4"):
         collector.rule_danglings_arg(ctx, c, "R4")
+        collector.rule_stale_isolated(ctx, c, "R4")
         collector.rule_cancel_inert(ctx, c, "R5")
